@@ -680,6 +680,7 @@ def run_sign_history(ctx, kind, kinds, pool, big=False):
             k = 'interest'
         cfg = pk.rand_cfg(ctx.rng, k, maxc=4, big=big)
         cfg['sg'] = json.loads(json.dumps(sg0))
+        cfg['name'] = [c for c in cfg['name'] if not (c['t'] == pk.T_PD and c['l'] != 32)]   # wrong-length placeholders are C01's
         if k == 'interest':
             cfg['name'] = [c for c in cfg['name'] if c['t'] != pk.T_PD] if ctx.rng.random() < 0.7 else cfg['name']
         rec = record(ctx, cfg, pool, live=(inner, kl), ntamper=4, hold=hold)
